@@ -104,8 +104,25 @@ def run(chk):
            'setter %s / getter %s / parser %s' % (forms[5], get5, par5), st.loc, key='C07-K|5')
     chk.ob('C07-K', 'the 5-character form extends the 4-character form', forms[5][:4] == forms[4], '', st.loc, key='C07-K|prefix')
     # FIELD = MSH-1
-    f_set = any(isinstance(n, ast.Call) and norm(n.func) == 'SubComponent' and
-                any(k.arg == 'value' and norm(k.value) == "encoding_chars['FIELD']" for k in n.keywords) for n in own_nodes(st.node))
+    def becomes_leaf_value(fnode, text, depth=0):
+        # `text` is stored as the value of a SubComponent: directly, or through a helper of the same module that does so
+        for n in own_nodes(fnode):
+            if not isinstance(n, ast.Call):
+                continue
+            if norm(n.func) == 'SubComponent' and any(k.arg == 'value' and norm(k.value) == text for k in n.keywords):
+                return True
+            if isinstance(n.func, ast.Name) and depth < 2:
+                callee = st.module.functions.get(n.func.id)
+                if callee is not None:
+                    params_ = [a_.arg for a_ in callee.node.args.args]
+                    for i_, a_ in enumerate(n.args):
+                        if norm(a_) == text and i_ < len(params_) and becomes_leaf_value(callee.node, params_[i_], depth + 1):
+                            return True
+                    for k in n.keywords:
+                        if norm(k.value) == text and k.arg in params_ and becomes_leaf_value(callee.node, k.arg, depth + 1):
+                            return True
+        return False
+    f_set = becomes_leaf_value(st.node, "encoding_chars['FIELD']")
     f_get = any(isinstance(n, ast.Dict) and any(isinstance(k, ast.Constant) and k.value == 'FIELD' and 'msh_1' in norm(v)
                                                for k, v in zip(n.keys, n.values)) for n in own_nodes(gt.node))
     f_par = var2key.get('field_sep') == 'FIELD' and any(
